@@ -12,6 +12,8 @@ use std::collections::HashMap;
 
 struct Mono<'tcx> {
     tcx: TyCtxt<'tcx>,
+    ext_memo: HashMap<Instance<'tcx>, Vec<usize>>,
+    ext_visiting: Vec<Instance<'tcx>>,
     ids: HashMap<Instance<'tcx>, usize>,
     order: Vec<Instance<'tcx>>,
     work: Vec<Instance<'tcx>>,
@@ -73,6 +75,82 @@ impl<'tcx> Mono<'tcx> {
         out
     }
 
+    fn mentions_local(&self, args: GenericArgsRef<'tcx>) -> bool {
+        for a in args.iter() {
+            for inner in a.walk() {
+                if let Some(t) = inner.as_type() {
+                    match t.kind() {
+                        ty::Adt(def, _) if def.did().is_local() => return true,
+                        ty::Closure(did, _) if did.is_local() => return true,
+                        ty::FnDef(did, _) if did.is_local() => return true,
+                        _ => {}
+                    }
+                }
+            }
+        }
+        false
+    }
+
+    /// local instances that an extern (std) instance may call: its MIR is walked when its generic
+    /// arguments mention local types (only then can it call back into the crate through traits)
+    fn extern_reach(&mut self, inst: Instance<'tcx>, depth: usize) -> Vec<usize> {
+        let tcx = self.tcx;
+        if let Some(v) = self.ext_memo.get(&inst) {
+            return v.clone();
+        }
+        let mut out = self.callables_in_args(inst.args);
+        if depth > 8 || self.ext_visiting.contains(&inst) || !self.mentions_local(inst.args) {
+            return out;
+        }
+        let did = inst.def_id();
+        let walkable = matches!(inst.def, InstanceKind::Item(_))
+            && is_fn_like(tcx.def_kind(did))
+            && tcx.is_mir_available(did);
+        if walkable {
+            self.ext_visiting.push(inst);
+            let body = tcx.instance_mir(inst.def);
+            let mut callees: Vec<Instance<'tcx>> = Vec::new();
+            for data in body.basic_blocks.iter() {
+                if let TerminatorKind::Call { func, .. } = &data.terminator().kind {
+                    let fty = func.ty(body, tcx);
+                    let fty = inst.instantiate_mir_and_normalize_erasing_regions(
+                        tcx,
+                        TypingEnv::fully_monomorphized(),
+                        EarlyBinder::bind(fty),
+                    );
+                    if let ty::FnDef(cd, cargs) = fty.kind() {
+                        if let Ok(Some(ci)) =
+                            Instance::try_resolve(tcx, TypingEnv::fully_monomorphized(), *cd, cargs)
+                        {
+                            callees.push(ci);
+                        }
+                    }
+                }
+            }
+            for ci in callees {
+                if let InstanceKind::ClosureOnceShim { .. } = ci.def {
+                    let cty = ci.args.type_at(0);
+                    if let ty::Closure(cdid, cargs) = cty.kind() {
+                        if cdid.is_local() {
+                            let c2 = Instance::new_raw(*cdid, cargs);
+                            out.push(self.id(c2));
+                        }
+                    }
+                } else if self.has_body(ci) {
+                    out.push(self.id(ci));
+                } else {
+                    let sub = self.extern_reach(ci, depth + 1);
+                    out.extend(sub);
+                }
+            }
+            self.ext_visiting.pop();
+        }
+        out.sort();
+        out.dedup();
+        self.ext_memo.insert(inst, out.clone());
+        out
+    }
+
     fn resolve_fn_ty(&mut self, caller: Instance<'tcx>, fty: Ty<'tcx>) -> J {
         let tcx = self.tcx;
         let fty = caller.instantiate_mir_and_normalize_erasing_regions(
@@ -122,7 +200,7 @@ impl<'tcx> Mono<'tcx> {
                             let id = self.id(inst);
                             o.put("callee", J::Int(id as i128));
                         } else {
-                            let via = self.callables_in_args(inst.args);
+                            let via = self.extern_reach(inst, 0);
                             if !via.is_empty() {
                                 o.put(
                                     "via",
@@ -267,6 +345,8 @@ fn candidates<'tcx>(tcx: TyCtxt<'tcx>, did: DefId, param_index: u32) -> Option<V
 pub fn dump_mono<'tcx>(tcx: TyCtxt<'tcx>) -> J {
     let mut m = Mono {
         tcx,
+        ext_memo: HashMap::new(),
+        ext_visiting: Vec::new(),
         ids: HashMap::new(),
         order: Vec::new(),
         work: Vec::new(),
